@@ -65,6 +65,7 @@ type walItem struct {
 	raw  []byte // marshalled entry
 	st   raftpb.HardState
 	snap walpb.Snapshot
+	seg  int // number of the segment file the record went into (the tail at the time of the call)
 }
 
 type walSess struct {
@@ -296,9 +297,18 @@ func (s *walSess) specOf(j int, pick int) string {
 		}
 	}
 	start := pickSnap(valid, pick)
+	// the restart reads the segment files from the last one whose name index is <= the snapshot index on (wal.Open ->
+	// searchIndex): entries that sit in older files are not seen, stale ones beyond the snapshot index included
+	first := 0
+	for i, n := range walNames(s.dir) {
+		var seq, idx uint64
+		if _, err := fmt.Sscanf(n, "%016x-%016x.wal", &seq, &idx); err == nil && idx <= start.Index {
+			first = i
+		}
+	}
 	var ents []raftpb.Entry
 	for _, it := range s.items[:j] {
-		if it.kind != 'e' || it.ent.Index <= start.Index {
+		if it.kind != 'e' || it.ent.Index <= start.Index || it.seg < first {
 			continue
 		}
 		up := it.ent.Index - start.Index - 1
@@ -774,15 +784,16 @@ func newWal(c *Ctx) func(string) string {
 			if raft.IsEmptyHardState(st) && len(ents) == 0 {
 				promised = false
 			}
+			seg := len(walNames(s.dir)) - 1 // a Save writes into the current tail and cuts afterwards
 			err := s.w.Save(st, ents)
 			if err != nil {
 				return "err:save " + err.Error()
 			}
 			for i := range ents {
-				s.items = append(s.items, walItem{kind: 'e', ent: ents[i], raw: pbutil.MustMarshal(&ents[i])})
+				s.items = append(s.items, walItem{kind: 'e', ent: ents[i], raw: pbutil.MustMarshal(&ents[i]), seg: seg})
 			}
 			if !raft.IsEmptyHardState(st) {
-				s.items = append(s.items, walItem{kind: 's', st: st})
+				s.items = append(s.items, walItem{kind: 's', st: st, seg: seg})
 				s.prevSt = st
 			}
 			if promised {
@@ -799,7 +810,7 @@ func newWal(c *Ctx) func(string) string {
 			if err := s.w.SaveSnapshot(sn); err != nil {
 				return "err:snap " + err.Error()
 			}
-			s.items = append(s.items, walItem{kind: 'n', snap: sn})
+			s.items = append(s.items, walItem{kind: 'n', snap: sn, seg: len(walNames(s.dir)) - 1})
 			if !s.opt {
 				s.dur = len(s.items)
 			}
